@@ -839,3 +839,23 @@ func (p *pathCtx) atomicSync(key interface{}) {
 }
 
 var _ = sort.Strings
+
+// unicode.IsSpace as a formula (the unicode package's range tables are not initialised by the
+// engine): the White_Space property of Unicode 15 - Latin-1 cases plus the table's other ranges.
+func init() {
+	exactStubs["unicode.IsSpace"] = func(fr *frame, args []value) value {
+		p := fr.i.p
+		ts := p.ts
+		r, _ := p.intTerm(args[0])
+		eq := func(v uint64) *Term { return ts.Eq(r, ts.BV(v, r.sort)) }
+		rng := func(lo, hi uint64) *Term {
+			return ts.And(ts.Cmp(OpBvUle, ts.BV(lo, r.sort), r), ts.Cmp(OpBvUle, r, ts.BV(hi, r.sort)))
+		}
+		t := rng(0x09, 0x0d)
+		for _, v := range []uint64{0x20, 0x85, 0xA0, 0x1680, 0x2028, 0x2029, 0x202f, 0x205f, 0x3000} {
+			t = ts.Or(t, eq(v))
+		}
+		t = ts.Or(t, rng(0x2000, 0x200a))
+		return p.mkBool(t)
+	}
+}
